@@ -89,7 +89,20 @@ def gen_operand(rng):
 
 def gen_kernel_line(rng):
     kind = rng.weighted([("fold", 30), ("merge", 14), ("trip", 16), ("flex", 12), ("order", 4), ("unwrap", 4),
-                         ("ccp", 14), ("iv", 8), ("sr", 8)])
+                         ("ccp", 14), ("iv", 8), ("sr", 8), ("dce", 8)])
+    if kind == "dce":
+        toks, nv = [], 2
+        for _ in range(rng.range(1, 9)):
+            def opd():
+                return f"v{rng.below(nv)}" if rng.chance(2, 3) else f"i{rng.range(-3, 9)}"
+            if rng.chance(1, 4):
+                toks += ["p", opd()]
+            else:
+                toks += ["b", f"v{nv}", rng.pick(OPS), opd(), opd()]
+                nv += 1
+        if rng.chance(1, 2):
+            return ["licm " + " ".join(toks)]       # v0 = loop variable, v1 = parameter
+        return [f"dce v{rng.below(nv)} " + " ".join(toks)]
     if kind == "fold":
         op, a, b = rng.pick(OPS), gen_int(rng), gen_int(rng)
         if op in ("shl", "shr") and rng.chance(2, 3):
@@ -333,6 +346,8 @@ def nontrivial_kernel(line, ans):
     if k == "ccp": return ans.startswith("bind") or ans != "stmt " + " ".join(line.split()[1:])
     if k == "ivloop": return ans.startswith("out ") and not ans.startswith("out - ")
     if k == "srloop": return ans.startswith("out ") and ans != "out -"
+    if k == "licm": return ans != "hoisted -"
+    if k == "dce": return line.count(" b ") > (0 if ans == "kept -" else ans.count(",") + 1)
     return False
 
 
@@ -1151,7 +1166,7 @@ def run(ctx):
     # corpus first
     cdir = os.path.join(common.VERIF, "corpus", "C02")
     corpus_lines = 0
-    for f in sorted(os.listdir(cdir)) if os.path.isdir(cdir) else []:
+    for f in sorted(os.listdir(cdir)) if os.path.isdir(cdir) and not os.environ.get("C02_ONLY") else []:
         lines = [l.rstrip("\n") for l in open(os.path.join(cdir, f)) if l.strip() and not l.startswith("#")]
         klines = [l for l in lines if not l.startswith("prog ")]
         if klines:
@@ -1164,18 +1179,20 @@ def run(ctx):
                 check_programs(ctx, [(p, int(c), a, parse_prog_text(text))], f"corpus/{f}")
         corpus_lines += len(lines)
     # 1. kernel correspondence + kernel oracle
-    nk = ctx.scale(8000, 80000)
+    only = os.environ.get("C02_ONLY", "")      # diagnosis only: restrict to one stream (kernel|prog|src)
+    nk = ctx.scale(8000, 80000) if only in ("", "kernel") else 0
     lines = []
     while len(lines) < nk:
         lines += gen_kernel_line(rng)
-    kstats, kimpl = run_kernels(ctx, lines, f"generated seed={ctx.seed}")
+    kstats, kimpl = run_kernels(ctx, lines, f"generated seed={ctx.seed}") if lines else ({"nontrivial": set(), "known": 0}, [])
     hist = {}
     for l in lines:
         hist[l.split()[0]] = hist.get(l.split()[0], 0) + 1
     # 2. probes for the open findings
-    run_probes(ctx)
+    if not only:
+        run_probes(ctx)
     # 3. translation validation on generated MIR programs
-    nprog = ctx.scale(1000, 6000)
+    nprog = ctx.scale(1000, 6000) if only in ("", "prog") else 0
     cases, samples = [], []
     pass_hist = {}
     for k in range(nprog):
@@ -1203,7 +1220,7 @@ def run(ctx):
             pstats[k] += s[k]
     # 4. MIR compiled from generated samlang sources through the real front end
     avoid = frozenset(f["id"] for f in ctx.open_findings)
-    nsrc = ctx.scale(120, 1500)
+    nsrc = ctx.scale(120, 1500) if only in ("", "src") else 0
     scases, src_sample = [], None
     for k in range(nsrc):
         text = gen_source(rng.fork(), avoid)
